@@ -36,7 +36,7 @@ impl Sweep<'_> {
     fn call(&mut self, api: &str, class: &str, want: Want, input: Value, f: impl FnOnce() -> Result<(), String>) {
         self.rep.evaluations += 1;
         self.rep.transitions += 1;
-        let r = catch(f);
+        let r = watchdog::case(|| format!("{} [{}] input {}", api, class, input), || catch(f));
         let (verdict, detail) = match (&r, want) {
             (Err(p), _) => ("panic", format!("panicked: {}", p)),
             (Ok(Ok(())), Want::Err) => ("invalid-input-accepted", "returned Ok".to_string()),
